@@ -30,7 +30,9 @@ rc = 1
 try:
     subprocess.run(['git', '-C', '/repo', 'worktree', 'add', '-q', '--detach', scratch, 'HEAD'], check=True)
     if a.patch:
-        subprocess.run(['git', '-C', scratch, 'apply', os.path.abspath(a.patch)], check=True)
+        if subprocess.run(['git', '-C', scratch, 'apply', os.path.abspath(a.patch)]).returncode != 0:
+            subprocess.run(['git', '-C', scratch, 'apply', '-3', os.path.abspath(a.patch)], check=True)
+            subprocess.run(['git', '-C', scratch, 'reset', '-q'])
     else:
         p = subprocess.run(['git', '-C', '/repo', 'diff', a.revert, a.revert + '^'], check=True, stdout=subprocess.PIPE)
         subprocess.run(['git', '-C', scratch, 'apply'], input=p.stdout, check=True)
